@@ -3,7 +3,7 @@ CONSTANTS
   Mode = "model"
   AtomSet <- AllAtoms
   PairAtoms <- QuickAtoms
-  InnerAtoms <- Zeros
+  InnerAtoms <- Zeros3
   PairOuter = TRUE
   Dump = TRUE
 INVARIANT KeyImpliesPyEq
